@@ -113,8 +113,11 @@ def run(prog, tier):
                 mode = None
                 for a in f.call_args(n):
                     an = f.nodes[f.strip(a, 'all')]
-                    if an.get('t') == 'std::_Ios_Openmode' and 'cv' in an:
-                        mode = int(an['cv'])
+                    if an.get('t') in ('std::_Ios_Openmode', 'const std::_Ios_Openmode', 'const std::ios_base::openmode', 'std::ios_base::openmode'):
+                        from paths import const_value
+                        cvv = const_value(f, a)
+                        if cvv is not None:
+                            mode = cvv
                 is_out = mode is None and c.get('classq') == 'std::basic_ofstream' or (mode is not None and mode & 16)
                 if c.get('classq') == 'std::basic_fstream' and mode is None and c['nparams'] == 1:
                     is_out = True  # default mode in|out
